@@ -108,23 +108,26 @@ theorem batchAll_nobody (n : Nat) (b : Bool) (ts : List Nat) :
 
 theorem calls_notifyTarget (pan : Nat → Bool) (n : Nat) (name : Name) (d : Int × Nat) :
     (notifyTarget pan n name d).filter Event.isCall = [Event.handle n d.2 name d.1] ∧
-    ((notifyTarget pan n name d).filter (fun e => !e.isCall)).length = if pan d.2 = true then 1 else 0 := by
+    ((notifyTarget pan n name d).filter (fun e => !e.isCall)).length = if (pan d.2 && reports? n) = true then 1 else 0 := by
   unfold notifyTarget
-  by_cases hp : pan d.2 = true
+  by_cases hp : (pan d.2 && reports? n) = true
   · simp [hp, Event.isCall, List.filter_cons]
   · simp [hp, Event.isCall, List.filter_cons]
 
 theorem calls_notifyBatchTarget (pan : Nat → Bool) (n : Nat) (b : Bool) (t : Nat) :
     (notifyBatchTarget pan n b t).filter Event.isCall = [Event.batchMode n t b] ∧
-    ((notifyBatchTarget pan n b t).filter (fun e => !e.isCall)).length = if pan t = true then 1 else 0 := by
+    ((notifyBatchTarget pan n b t).filter (fun e => !e.isCall)).length = if (pan t && reports? n) = true then 1 else 0 := by
   unfold notifyBatchTarget
-  by_cases hp : pan t = true
+  by_cases hp : (pan t && reports? n) = true
   · simp [hp, Event.isCall, List.filter_cons]
   · simp [hp, Event.isCall, List.filter_cons]
 
+/-- the calls made do not depend on who panics; the recovery handler (if the notifier has one) gets one report per
+    call made to a panicking target -/
 theorem calls_deliverAll (pan : Nat → Bool) (n : Nat) (name : Name) (ds : List (Int × Nat)) :
     calls (deliverAll pan n name ds) = deliverAll nobody n name ds ∧
-    reports (deliverAll pan n name ds) = ((deliverAll nobody n name ds).filter (fun e => pan e.target)).length := by
+    reports (deliverAll pan n name ds) =
+      if reports? n = true then ((deliverAll nobody n name ds).filter (fun e => pan e.target)).length else 0 := by
   rw [deliverAll_nobody]
   unfold deliverAll calls reports
   induction ds with
@@ -132,13 +135,16 @@ theorem calls_deliverAll (pan : Nat → Bool) (n : Nat) (name : Name) (ds : List
   | cons d ds ih =>
     simp only [List.flatMap_cons, List.filter_append, List.length_append, List.map_cons, List.filter_cons, ih.1, ih.2,
       (calls_notifyTarget pan n name d).1, (calls_notifyTarget pan n name d).2, Event.target]
-    by_cases hp : pan d.2 = true
-    · simp [hp]; omega
-    · simp [hp]
+    by_cases hr : reports? n = true
+    · by_cases hp : pan d.2 = true
+      · simp [hp, hr]; omega
+      · simp [hp, hr]
+    · simp [hr]
 
 theorem calls_batchAll (pan : Nat → Bool) (n : Nat) (b : Bool) (ts : List Nat) :
     calls (batchAll pan n b ts) = batchAll nobody n b ts ∧
-    reports (batchAll pan n b ts) = ((batchAll nobody n b ts).filter (fun e => pan e.target)).length := by
+    reports (batchAll pan n b ts) =
+      if reports? n = true then ((batchAll nobody n b ts).filter (fun e => pan e.target)).length else 0 := by
   rw [batchAll_nobody]
   unfold batchAll calls reports
   induction ts with
@@ -146,8 +152,10 @@ theorem calls_batchAll (pan : Nat → Bool) (n : Nat) (b : Bool) (ts : List Nat)
   | cons d ds ih =>
     simp only [List.flatMap_cons, List.filter_append, List.length_append, List.map_cons, List.filter_cons, ih.1, ih.2,
       (calls_notifyBatchTarget pan n b d).1, (calls_notifyBatchTarget pan n b d).2, Event.target]
-    by_cases hp : pan d = true
-    · simp [hp]; omega
-    · simp [hp]
+    by_cases hr : reports? n = true
+    · by_cases hp : pan d = true
+      · simp [hp, hr]; omega
+      · simp [hp, hr]
+    · simp [hr]
 
 end Nt
